@@ -44,6 +44,13 @@ pub enum C06Scenario {
     LeafOutput { memory: Vec<Word>, second_pass: bool },
     /// arbitrary graph arrays over trivial programs
     RawGraph { starts: Vec<u16>, edges: Vec<u16>, collect_all: bool },
+    /// contract validation with an untrusted signature: `sig` (64 bytes) and recovery id
+    SignedContract {
+        preds: Vec<(Vec<u16>, Vec<u16>)>,
+        salt: u8,
+        sig: Vec<u8>,
+        rec_id: u8,
+    },
     /// a program-chosen read count against a contract with or without proposed mutations
     HostileRead {
         post: bool,
@@ -214,6 +221,42 @@ pub fn evaluate(sc: &C06Scenario) -> (Option<Finding>, Vec<ExecInfo>, u64) {
             let (ff, info) = run_workload(w);
             infos.push(info);
             f = ff;
+        }
+        C06Scenario::SignedContract { preds, salt, sig, rec_id } => {
+            evals += 2;
+            let predicates: Vec<Predicate> = preds
+                .iter()
+                .map(|(starts, edges)| Predicate {
+                    nodes: starts
+                        .iter()
+                        .map(|s| essential_types::predicate::Node {
+                            edge_start: *s,
+                            program_address: essential_types::ContentAddress([*salt; 32]),
+                        })
+                        .collect(),
+                    edges: edges.clone(),
+                })
+                .collect();
+            let mut sb = [0u8; 64];
+            for (i, b) in sig.iter().take(64).enumerate() {
+                sb[i] = *b;
+            }
+            let sc = essential_types::contract::SignedContract {
+                contract: essential_types::contract::Contract {
+                    predicates: predicates.clone(),
+                    salt: [*salt; 32],
+                },
+                signature: essential_types::Signature(sb, *rec_id),
+            };
+            if let Err(e) = guard("predicate::check_contract", || {
+                let _ = essential_check::predicate::check_contract(&predicates);
+            }) {
+                f = Some(e);
+            } else if let Err(e) = guard("predicate::check_signed_contract", || {
+                let _ = essential_check::predicate::check_signed_contract(&sc);
+            }) {
+                f = Some(e);
+            }
         }
         C06Scenario::HostileRead {
             post,
@@ -549,6 +592,42 @@ pub fn scenario_for(batch: &str, case: u64, run_seed: u64) -> Option<C06Scenario
                 collect_all: rng.chance(1, 2),
             }
         }
+        "c06-contract" => {
+            let n_preds = match rng.below(8) {
+                0 => 0,
+                1 => 100 + rng.usize(3),
+                _ => 1 + rng.usize(4),
+            };
+            let preds = (0..n_preds)
+                .map(|_| {
+                    let n = match rng.below(12) {
+                        0 => 999 + rng.usize(4),
+                        _ => rng.usize(6),
+                    };
+                    let ne = match rng.below(12) {
+                        0 => 999 + rng.usize(4),
+                        _ => rng.usize(8),
+                    };
+                    (
+                        (0..n).map(|_| if rng.chance(1, 3) { u16::MAX } else { rng.below(ne as u64 + 2) as u16 }).collect(),
+                        (0..ne).map(|_| rng.below(n as u64 + 2) as u16).collect(),
+                    )
+                })
+                .collect();
+            C06Scenario::SignedContract {
+                preds,
+                salt: rng.below(4) as u8,
+                sig: match rng.below(4) {
+                    0 => vec![0; 64],
+                    1 => vec![0xFF; 64],
+                    _ => (0..64).map(|_| rng.below(256) as u8).collect(),
+                },
+                rec_id: match rng.below(3) {
+                    0 => rng.below(4) as u8,
+                    _ => rng.below(256) as u8,
+                },
+            }
+        }
         "c06-read" => C06Scenario::HostileRead {
             post: rng.chance(1, 2),
             ext: rng.chance(1, 2),
@@ -598,6 +677,7 @@ pub fn plan(_prop: &str, tier: &str) -> Vec<BatchPlan> {
         mk("c06-output", 30_000, 2_000_000),
         mk("c06-graph", 30_000, 2_000_000),
         mk("c06-read", 6_000, 300_000),
+        mk("c06-contract", 6_000, 300_000),
         mk("c06-soup", 6_000, 600_000),
     ]
 }
